@@ -4,9 +4,11 @@
 -/
 import ChialispModel.Drv.Base
 import ChialispModel.Drv.Conv
+import ChialispModel.Drv.Src
 
 def main (args : List String) : IO UInt32 := do
   match args with
   | ["base"] => Drv.Base.run; return 0
   | ["conv"] => Drv.Conv.run; return 0
+  | ["src"] => Drv.Src.run; return 0
   | _ => IO.eprintln s!"modeld: unknown sub-command {args}"; return 2
